@@ -496,6 +496,18 @@ class Interp:
                 raise
         if name == "open":
             raise Incomplete("open() not interpreted")
+        if name == "iter":
+            return iter(list(self.iterate(args[0], node)))
+        if name == "next":
+            it = args[0]
+            if not hasattr(it, "__next__"):
+                raise PyRaise(TypeError, (f"{type(it).__name__} object is not an iterator",), node)
+            try:
+                return next(it)
+            except StopIteration:
+                if len(args) > 1:
+                    return args[1]
+                raise PyRaise(StopIteration, (), node)
         raise Incomplete(f"builtin {name} not modelled")
 
     def isinstance(self, v, t):
